@@ -256,7 +256,8 @@ pub fn one_run_h(shape: &HShape, ex: &mut Explorer, gen: &Value) -> (Vec<Value>,
             }),
         });
     }
-    let run = run_threads(threads, ex, 4000);
+    // a run of these shapes takes well under 200 steps; a run that reaches the budget is spinning
+    let run = run_threads(threads, ex, 800);
     names.who = run.names.who.clone();
     let mut evs: Vec<Value> = vec![];
     for e in run.events.iter().filter(|e| KEEP_H.contains(&e.a.as_str())) {
@@ -744,9 +745,11 @@ fn dfs<F: FnMut(&mut Explorer) -> (Vec<Value>, Value, bool)>(acc: &mut Acc, boun
     loop {
         ex.begin_run();
         let r = f(&mut ex);
+        let bad = r.2;
         acc.add(r, &ex);
         k += 1;
-        if !ex.end_run() || k >= cap {
+        // a run that hit its step budget leaves parked threads behind: do not keep exploring that shape
+        if bad || !ex.end_run() || k >= cap {
             break;
         }
     }
@@ -770,7 +773,11 @@ pub fn batch_h(out: &str, tier: &str, seed: u64) -> Value {
         for _ in 0..per {
             ex.begin_run();
             let r = one_run_h(&shp, &mut ex, &gen);
+            let bad = r.2;
             acc.add(r, &ex);
+            if bad {
+                break;
+            }
         }
     }
     acc.b.finish();
